@@ -133,6 +133,7 @@ func scanProgressSites(p *model.Prog, pkgs []string) map[ssa.Instruction][]progr
 		for _, l := range model.Loops(fn) {
 			var cands []*ssa.Phi
 			hasRange := false
+			downward := false
 			for b := range l.Body {
 				iff, ok := b.Instrs[len(b.Instrs)-1].(*ssa.If)
 				if !ok {
@@ -148,7 +149,7 @@ func scanProgressSites(p *model.Prog, pkgs []string) map[ssa.Instruction][]progr
 				if !exits || !isB {
 					continue
 				}
-				for _, side := range []ssa.Value{bo.X, bo.Y} {
+				for si, side := range []ssa.Value{bo.X, bo.Y} {
 					terms, _ := linTerms(side)
 					for v := range terms {
 						if ph, isP := v.(*ssa.Phi); isP && ph.Block() == l.Header {
@@ -156,6 +157,25 @@ func scanProgressSites(p *model.Prog, pkgs []string) map[ssa.Instruction][]progr
 								hasRange = true
 							} else {
 								cands = append(cands, ph)
+								// the loop goes on while the position is above a bound: it counts down
+								stays := b.Succs[0]
+								contOnTrue := l.Body[stays]
+								op := bo.Op
+								if !contOnTrue {
+									switch op {
+									case token.GTR:
+										op = token.LEQ
+									case token.GEQ:
+										op = token.LSS
+									case token.LSS:
+										op = token.GEQ
+									case token.LEQ:
+										op = token.GTR
+									}
+								}
+								if (si == 0 && (op == token.GTR || op == token.GEQ)) || (si == 1 && (op == token.LSS || op == token.LEQ)) {
+									downward = true
+								}
 							}
 						}
 					}
@@ -171,8 +191,8 @@ func scanProgressSites(p *model.Prog, pkgs []string) map[ssa.Instruction][]progr
 				}
 				next := ph.Edges[i]
 				terms, k := linTerms(next)
-				if len(terms) == 1 && terms[ph] == 1 && k >= 1 {
-					continue // position + positive constant
+				if len(terms) == 1 && terms[ph] == 1 && (k >= 1 || (downward && k <= -1)) {
+					continue // position + positive constant (or minus a constant in a loop that counts down to a bound)
 				}
 				term := pred.Instrs[len(pred.Instrs)-1]
 				out[term] = append(out[term], progressSite{ph, next})
